@@ -116,7 +116,8 @@ LegalKP(d, k, p) ==
                      \/ p \in Leaves(t) /\ (allow \/ p = cur[d])          \* (a tombstoned leaf too: the child resurrects that branch)
     [] k = "del"  -> p \in Leaves(t) /\ ~t[p].d /\ (allow \/ p = cur[d])
     [] k = "push" -> IF allow THEN p = 0 \/ (p \in DOMAIN t /\ ~t[p].d)
-                     ELSE (p = 0 /\ DOMAIN t = {}) \/ (p # 0 /\ p = cur[d] /\ ~t[p].d)
+                     ELSE \/ p = 0 /\ (IF DOMAIN t = {} THEN TRUE ELSE t[cur[d]].d)      \* IsIllegalConflict case (c): a disconnected branch onto a tombstoned document
+                          \/ p # 0 /\ p = cur[d] /\ ~t[p].d
 LegalS(d, k, p, s) ==
   /\ (k = "del" => Carried(s) = {})
   /\ \A n \in Names : s[n] = -1 =>
